@@ -15,7 +15,13 @@ observer that filters nothing; `r.updates` are the `updateStats` calls, `r.notes
 "Distinct keys" are given as any duplicate-free list with the same members (`distinct R` is one).
 -/
 import CLModel.Compare.Content
+import CLModel.Compare.Session
+import CLModel.Compare.FluentEnt
 import CLModel.Proofs.C03
+import CLModel.Proofs.C03Sess
+import CLModel.Proofs.C03SessCmp
+import CLModel.Proofs.C03Ftl
+import CLModel.Proofs.C03Val
 namespace C03
 open Cmp AR
 
@@ -312,5 +318,318 @@ example : ∃ (s : Stats) (notes : List Note), compareEntities [⟨.str [120], t
   simp only [diffKeys]
   rw [AR.addRemove_eq_spec _ _ (by decide) (by decide)]
   decide
+
+/-! ## Round 4
+
+### (A) ONE comparer, a sequence of jobs — `compareProjects` drives one `ContentComparer` through the files of all locales
+
+`Sess.run l0 jobs` (CLModel/Compare/Session.lean): the jobs (`compare` / `add` / `remove` of a reference `File` and a localized
+`File`) run one after the other on the same `ObserverList` `l0` (the list's own `Observer` state plus the project observers).
+`getCount s L key` is `s.get(L, {}).get(key, 0)` of a summary.  `C03S.Tr l l' evs`: the `notify` / `updateStats` calls `evs`
+lead from `l` to `l'`.  `C03S.touches L j`: one of the job's two files has locale `L`. -/
+
+open ObsM in
+/-- A job none of whose files has locale `L` leaves `summary[L]` alone — in the list's own summary and in the summary of
+    every project observer, for all eleven counters.  (With the per-locale dicts of `Observer.__init__` shared between the
+    locales this is false: every job would move the counters of every locale.) -/
+theorem job_leaves_other_locales_alone (l l' : ObsList) (j : Sess.Job) (o : Merge.Outcome) (hown : l.own.filter = none)
+    (h : Sess.runJob l j = .ok (l', o)) (L : Option Sess.Text) (hL : C03S.touches L j = false) :
+    (∀ key, getCount l'.own.summary L key = getCount l.own.summary L key) ∧
+      All₂ (fun ob ob' => ∀ key, getCount ob'.summary L key = getCount ob.summary L key) l.observers l'.observers := by
+  obtain ⟨evs, t, on⟩ := C03S.runJob_tr l l' j o h
+  have hz := C03S.on_not_touching on hL
+  refine ⟨?_, ?_⟩
+  · intro key
+    rw [(C03S.tr_own t hown).1 L key, C03S.countSpec_other_locale _ L key evs hz]; rfl
+  · refine All₂.imp ?_ (C03S.tr_observers t hown)
+    intro ob ob' hob key
+    rw [hob.1 L key, C03S.countSpec_other_locale _ L key evs hz]; rfl
+
+open ObsM in
+/-- After ANY sequence of jobs on one comparer, `summary[L][key]` — of the list and of every project observer — is what it was
+    before plus the sum, over the jobs that touch locale `L` ONLY, of what that job's own notifications and stats count for
+    (`countSpec`: one per non-ignored error / warning notification of the locale, plus the non-ignored stats values); the jobs
+    are blocks `trs` of one history, each block about its job's own two files. -/
+theorem session_summary_is_locale_sum (l0 l' : ObsList) (jobs : List Sess.Job) (os : List Merge.Outcome)
+    (hown : l0.own.filter = none) (h : Sess.run l0 jobs = .ok (l', os)) :
+    ∃ trs : List (List Ev), All₂ (fun j evs => C03S.On (C03S.jobFiles j) evs) jobs trs ∧ C03S.Tr l0 l' trs.flatten ∧
+      (∀ L key, getCount l'.own.summary L key = getCount l0.own.summary L key +
+        (((jobs.zip trs).filter (fun p => C03S.touches L p.1)).map (fun p => countSpec (ignList l0.filters) L key p.2)).sum) ∧
+      All₂ (fun ob ob' => ∀ L key, getCount ob'.summary L key = getCount ob.summary L key +
+        (((jobs.zip trs).filter (fun p => C03S.touches L p.1)).map (fun p => countSpec (ignObs ob.filter) L key p.2)).sum)
+        l0.observers l'.observers := by
+  obtain ⟨trs, hall, t⟩ := C03S.run_tr jobs l0 l' os h
+  refine ⟨trs, hall, t, ?_, ?_⟩
+  · intro L key
+    rw [(C03S.tr_own t hown).1 L key, C03S.sum_flatten, C03S.sum_touching _ L key jobs trs hall]
+  · refine All₂.imp ?_ (C03S.tr_observers t hown)
+    intro ob ob' hob L key
+    rw [hob.1 L key, C03S.sum_flatten, C03S.sum_touching _ L key jobs trs hall]
+
+open ObsM in
+/-- What ONE comparison adds, whatever the observers have accumulated before: the job's block is notifications about the
+    localized file followed by one stats event; the stats are those of `compareEntities` (every theorem above applies to them)
+    under the verdicts `ObserverList.notify` returns for the project observers' filters; and the nine string counters of
+    `summary[locale of the localized file]` grow by exactly these stats, those of every other locale by nothing. -/
+theorem compare_job_adds_its_counts (file : File) (j : Sess.EntJob) (l l' : ObsList) (hown : l.own.filter = none)
+    (h : Sess.compareEnts file j l = .ok l') :
+    ∃ (s : Stats) (notes : List Note),
+      compareEntities j.ref j.l10n (C03S.verdictOf l.filters file) = .ok { updates := [s.toDict], notes := notes } ∧
+      ∀ L key, key ≠ .errors → key ≠ .warnings →
+        getCount l'.own.summary L key = getCount l.own.summary L key + (if file.locale = L then C03S.statOf s key else 0) := by
+  obtain ⟨evs, s, notes, t, hn, hc⟩ := C03S.compareEnts_refines file j l l' hown h
+  refine ⟨s, notes, hc, ?_⟩
+  intro L key hk1 hk2
+  rw [(C03S.tr_own t hown).1 L key, C03S.block_count l.filters file evs hn s L key hk1 hk2]
+
+/-- With project observers that filter nothing (at least one), the verdict is "error" for every key: the job's stats are
+    those of `compareEntities … noFilter`, the object of `missing_set`, `obsolete_set`, `shared_once`, `counts_partition`. -/
+theorem unfiltered_job_is_plain_comparison (F : List (Option ObsM.Filter)) (file : ObsM.File) (hne : F ≠ [])
+    (hall : ∀ x ∈ F, x = none) : C03S.verdictOf F file = noFilter :=
+  C03S.verdictOf_unfiltered F file hne hall
+
+/-- non-vacuity: two locales through one comparer with one unfiltered project observer — a missing file of `de` (3 strings,
+    5 words), then one of `fr` (1 string, 2 words): the run returns, and each locale's summary — of the list and of the
+    project observer — holds its own numbers only. -/
+example : (match Sess.run (ObsM.ObsList.init 0 [ObsM.Obs.init 0 none])
+      [.add ⟨[97], none, none⟩ ⟨[100, 101, 47, 97], none, some [100, 101]⟩ false
+          (.ents 6 [⟨.str [97], false, 2, 1, 0⟩, ⟨.str [98], false, 2, 2, 0⟩, ⟨.str [99], false, 1, 3, 0⟩]),
+       .add ⟨[97], none, none⟩ ⟨[102, 114, 47, 97], none, some [102, 114]⟩ false (.ents 6 [⟨.str [97], false, 2, 1, 0⟩])] with
+    | .ok (l', _) =>
+      (l'.own :: l'.observers).all (fun o =>
+        ObsM.getCount o.summary (some [100, 101]) .missing == 3 && ObsM.getCount o.summary (some [102, 114]) .missing == 1 &&
+        ObsM.getCount o.summary (some [100, 101]) .missing_w == 5 && ObsM.getCount o.summary (some [102, 114]) .missing_w == 2)
+    | .error _ => false) = true := by decide +kernel
+
+/-! ### (B) Fluent: `FluentEntity.equals`, `FluentAttribute.equals`, `count_words` on the fluent.syntax AST
+
+`FtlC.equals self other` = `self.entry.equals(other.entry, ignored_fields)`, `FtlC.countWords` = `count_words()`
+(CLModel/Compare/FluentEnt.lean).  `C03F.erase…` rewrite every span start of an AST to 0; `C03F.sameEq a b` is `equals`
+between two messages or two terms (what the loop evaluates: the two entities have the same key). -/
+
+/-- `equals` compares the id, the span-erased value and — unless `self` is a term — the span-erased attributes in order;
+    nothing else (no span, no comment, not even the class of `other`). -/
+theorem fluent_equals_is_erased_equality (self other : Ftl.Entry) : FtlC.equals self other = true ↔
+    FtlC.entId self = FtlC.entId other ∧
+      (FtlC.entValue self).map C03F.erasePattern = (FtlC.entValue other).map C03F.erasePattern ∧
+      (FtlC.isTerm self = true ∨ C03F.eraseAttrs (FtlC.entAttrs self) = C03F.eraseAttrs (FtlC.entAttrs other)) :=
+  C03F.equals_iff self other
+
+/-- `FluentAttribute.equals`: same name and span-erased pattern. -/
+theorem fluent_attribute_equals (a b : Ftl.Attribute) : FtlC.eqAttr a b = true ↔ C03F.eraseAttr a = C03F.eraseAttr b :=
+  C03F.eqAttr_iff a b
+
+/-- Between entries of the same class `equals` is an equivalence relation. -/
+theorem fluent_equals_equivalence :
+    (∀ a, C03F.sameEq a a = true) ∧ (∀ a b, C03F.sameEq a b = C03F.sameEq b a) ∧
+      (∀ a b c, C03F.sameEq a b = true → C03F.sameEq b c = true → C03F.sameEq a c = true) :=
+  ⟨C03F.sameEq_refl, C03F.sameEq_symm, C03F.sameEq_trans⟩
+
+/-- Spans, comments (and with them indentation and blank lines, which only move spans) are invisible: an entry `equals` its
+    span-erased form, has the same word count, `equals a b` can be computed on the span-erased forms, and the entity lists
+    of a file do not depend on the comments. -/
+theorem fluent_equals_ignores_spans_and_comments :
+    (∀ e, C03F.sameEq e (C03F.eraseEntry e) = true) ∧
+    (∀ a b, C03F.sameEq a b = C03F.sameEq (C03F.eraseEntry a) (C03F.eraseEntry b)) ∧
+    (∀ e, FtlC.countWords (C03F.eraseEntry e) = FtlC.countWords e) ∧
+    (∀ items reps, FtlC.toEnts (items.map C03F.dropComment) reps = FtlC.toEnts items reps) := by
+  refine ⟨C03F.sameEq_erase, ?_, C03F.countWords_erase, C03F.toEnts_comments⟩
+  intro a b
+  have ha := C03F.sameEq_erase a
+  have hb := C03F.sameEq_erase b
+  cases h : C03F.sameEq a b
+  · cases h2 : C03F.sameEq (C03F.eraseEntry a) (C03F.eraseEntry b)
+    · rfl
+    · have := C03F.sameEq_trans a _ b (C03F.sameEq_trans a _ _ ha h2) (by rw [C03F.sameEq_symm]; exact hb)
+      rw [h] at this; cases this
+  · exact (C03F.sameEq_trans _ b _ (C03F.sameEq_trans _ a b (by rw [C03F.sameEq_symm]; exact ha) h) hb).symm
+
+/-- Word counts as the code defines them: a select expression counts the text of ALL its variants and nothing of its
+    selector; a pattern is the sum of its elements, a text element its white-space separated words, literals and references
+    nothing; a message counts value and attributes, a term its value only. -/
+theorem fluent_word_counts :
+    (∀ sel vs, FtlC.wExpr (.select sel vs) = (vs.map (fun v => FtlC.wPattern (C03F.variantValue v))).sum) ∧
+    (∀ st els, FtlC.wPattern (.mk st els) = (els.map FtlC.wElem).sum) ∧
+    (∀ v, FtlC.wElem (.text v) = splitCount v) ∧
+    (∀ v, FtlC.wExpr (.strLit v) = 0) ∧ (∀ v, FtlC.wExpr (.numLit v) = 0) ∧ (∀ v, FtlC.wExpr (.varRef v) = 0) ∧
+    (∀ s i a, FtlC.wExpr (.msgRef s i a) = 0) ∧
+    (∀ m : Ftl.Message, FtlC.countWords (.message m) =
+      (match m.value with | some p => FtlC.wPattern p | none => 0) + (m.attributes.map (fun a => FtlC.wPattern a.value)).sum) ∧
+    (∀ t : Ftl.Term, FtlC.countWords (.term t) = FtlC.wPattern t.value) := by
+  refine ⟨?_, ?_, ?_, ?_, ?_, ?_, ?_, ?_, ?_⟩
+  · intro sel vs; simp [FtlC.wExpr, C03F.wVariants_sum]
+  · intro st els; simp [FtlC.wPattern, C03F.wElems_sum]
+  · intro v; simp [FtlC.wElem]
+  · intro v; simp [FtlC.wExpr]
+  · intro v; simp [FtlC.wExpr]
+  · intro v; simp [FtlC.wExpr]
+  · intro s i a; simp [FtlC.wExpr]
+  · intro m
+    obtain ⟨st, id, v, as⟩ := m
+    cases v <;> simp [FtlC.countWords, C03F.wAttrs_sum]
+  · intro t; simp [FtlC.countWords]
+
+/-- changed ⇔ ¬equals: in the entity lists the loop gets for two Fluent files, a reference entity and a localized entity carry
+    the same class number iff `equals` holds between them (and the word count is `count_words` of the AST) — so `class_rules`
+    reads: a shared key that is no key binding is `unchanged` iff the localized entry `equals` the reference entry. -/
+theorem fluent_classes_are_equals (ref l10n : List FtlC.Item) (i j : Nat) (k1 k2 : Key) (c1 c2 : Option Ftl.Str)
+    (e1 e2 : Ftl.Entry) (h1 : ref[i]? = some (.ent k1 c1 e1)) (h2 : l10n[j]? = some (.ent k2 c2 e2)) :
+    ∃ a b, (FtlC.toEnts ref []).1[i]? = some a ∧ (FtlC.toEnts l10n (FtlC.toEnts ref []).2).1[j]? = some b ∧
+      a.key = k1 ∧ b.key = k2 ∧ a.junk = false ∧ b.junk = false ∧ a.words = FtlC.countWords e1 ∧
+      b.words = FtlC.countWords e2 ∧ ((a.cls == b.cls) = C03F.sameEq e1 e2) :=
+  C03F.fluent_cls ref l10n i j k1 k2 c1 c2 e1 e2 h1 h2
+
+/-- unchanged + changed + missing word sums add up for Fluent files as for any other (instance of `words_partition`). -/
+theorem fluent_words_partition (ref l10n : List FtlC.Item) (DR : List Key) (hn : DR.Nodup)
+    (hm : ∀ k, k ∈ DR ↔ k ∈ (FtlC.toEnts ref []).1.map (·.key)) (r : Report)
+    (h : FtlC.compareFluent ref l10n noFilter = .ok r) :
+    ∃ s : Stats, r.updates = [s.toDict] ∧
+      s.missing_w + s.changed_w + s.unchanged_w =
+        ((DR.filter (fun k => isCls (FtlC.toEnts ref []).1 (FtlC.toEnts l10n (FtlC.toEnts ref []).2).1 .missing k ||
+            isCls (FtlC.toEnts ref []).1 (FtlC.toEnts l10n (FtlC.toEnts ref []).2).1 .changed k ||
+            isCls (FtlC.toEnts ref []).1 (FtlC.toEnts l10n (FtlC.toEnts ref []).2).1 .unchanged k)).map
+          (wordsOf (FtlC.toEnts ref []).1)).sum :=
+  words_partition _ _ DR hn hm r h
+
+/-- `key = { $n -> [one] One thing *[other] { $n } things here }`: four words (all variants, no selector), whatever the spans -/
+example : FtlC.countWords (.message (Ftl.Message.mk 7 [107]
+      (some (.mk 4 [.placeable (.select (.varRef [110])
+        [.mk (.ident 9 [111, 110, 101]) (.mk 15 [.text [79, 110, 101, 32, 116, 104, 105, 110, 103]]) false,
+         .mk (.ident 30 [111, 116, 104, 101, 114]) (.mk 38 [.placeable (.varRef [110]), .text [32, 116, 104, 105, 110, 103, 115, 32, 104, 101, 114, 101]]) true])]))
+      [])) = 4 := by decide
+
+/-- negation witness for "same class": across classes `equals` is not symmetric — a term ignores the attributes of the other
+    entry, a message does not (never evaluated by the comparer: a term's key starts with "-"). -/
+example : FtlC.equals (.term (Ftl.Term.mk 0 [97] (.mk 0 [.text [120]]) []))
+      (.message (Ftl.Message.mk 0 [97] (some (.mk 0 [.text [120]])) [⟨0, [116], .mk 0 [.text [121]]⟩])) = true ∧
+    FtlC.equals (.message (Ftl.Message.mk 0 [97] (some (.mk 0 [.text [120]])) [⟨0, [116], .mk 0 [.text [121]]⟩]))
+      (.term (Ftl.Term.mk 0 [97] (.mk 0 [.text [120]]) [])) = false := by
+  simp [FtlC.equals, FtlC.entId, FtlC.entValue, FtlC.entAttrs, FtlC.isTerm, FtlC.eqOptPattern, FtlC.eqPattern, FtlC.eqElems,
+    FtlC.eqElem, FtlC.eqAttrs]
+
+/-! ### (C) `Entry.equals` compares `val` (the unescaped value), never `raw_val` -/
+
+/-- The `equal` branch of the composed comparison (Compare/Pipeline.lean, parser + value semantics of C02): a shared key that
+    is no key binding is counted `unchanged` iff key and VALUE of the two entities agree, else `changed`; the raw texts are
+    not looked at, and the words are those of the reference value. -/
+theorem unchanged_by_value_not_raw (env : Pipe.Env) (ref l10n : List Pipe.PEnt) (st st' : Pipe.LoopSt) (k : Key)
+    (refent l10nent : Pipe.PEnt) (hr : Pipe.lookup ref k = .ok refent) (hl : Pipe.lookup l10n k = .ok l10nent)
+    (hk : keyMatch k = false) (h : Pipe.step env ref l10n st (.equal, k) = .ok st') :
+    st'.stats = (if refent.key == l10nent.key && refent.val == l10nent.val then
+        { st.stats with unchanged := st.stats.unchanged + 1, unchanged_w := st.stats.unchanged_w + countWords refent.val }
+      else { st.stats with changed := st.stats.changed + 1, changed_w := st.stats.changed_w + countWords refent.val }) :=
+  C03V.equal_step_by_val env ref l10n st st' k refent l10nent hr hl hk h
+
+/-- `.properties`: the value is the documented unescape of the raw text (`C02.props_unescape_is_spec`), so two entities whose
+    raw texts differ but unescape to the same text have the same `val` — and are `unchanged` by the theorem above. -/
+theorem properties_same_unescape_same_value (s1 s2 : Array Nat) (h1 h2 : Hist.Ent) (a b : Pipe.PEnt)
+    (ha : Pipe.mkEnt .properties s1 h1 = .ok a) (hb : Pipe.mkEnt .properties s2 h2 = .ok b) (ja : a.junk = false)
+    (jb : b.junk = false) (hv : P.propsUnescapeSpec a.raw = P.propsUnescapeSpec b.raw) :
+    a.val = b.val ∧ a.val = P.propsUnescapeSpec a.raw :=
+  ⟨C03V.props_same_value s1 s2 h1 h2 a b ha hb ja jb hv, C03V.mkEnt_props_val s1 h1 a ha ja⟩
+
+/-- `café` and `café`; `two \⏎   words` (line continuation) and `two words`: different raw texts, one value -/
+example : P.propsUnescapeSpec [99, 97, 102, 92, 117, 48, 48, 101, 57] = P.propsUnescapeSpec [99, 97, 102, 233] ∧
+    P.propsUnescapeSpec [116, 119, 111, 32, 92, 10, 32, 32, 32, 119, 111, 114, 100, 115]
+      = P.propsUnescapeSpec [116, 119, 111, 32, 119, 111, 114, 100, 115] := by
+  constructor <;>
+    exact Option.some.inj (((P.propsVal_eq_spec _).symm.trans (by decide)).trans (P.propsVal_eq_spec _))
+
+/-! ### (D) duplicated keys -/
+
+/-- A reference with duplicated keys and a localization with the IDENTICAL key sequence (a verbatim copy, or any re-valuing
+    of it): nothing is missing or obsolete, and `changed + unchanged + keys` is the number of DISTINCT reference keys —
+    a key that occurs twice is one string. -/
+theorem duplicates_same_key_sequence (ref l10n : List Ent) (hk : ref.map (·.key) = l10n.map (·.key)) (r : Report)
+    (h : compareEntities ref l10n noFilter = .ok r) :
+    ∃ s : Stats, r.updates = [s.toDict] ∧ r.missingKeys = [] ∧ r.obsoleteKeys = [] ∧ s.missing = 0 ∧ s.obsolete = 0 ∧
+      s.missing + s.changed + s.unchanged + s.keys = (distinct (ref.map (·.key))).length := by
+  obtain ⟨s, hs, hmn, hmp, hmc, _⟩ := missing_set ref l10n _ (distinct_nodup _) (mem_distinct _) r h
+  obtain ⟨s2, hs2, hon, hop, hoc⟩ := obsolete_set ref l10n _ (distinct_nodup _) (mem_distinct _) r h
+  obtain ⟨s3, hs3, _, _, _, _, _, hsum, _⟩ := shared_once ref l10n (distinct (ref.map (·.key))) (distinct_nodup _)
+    (fun k => by rw [mem_distinct, ← hk]; simp) r h
+  have e2 : s2 = s := C03S.toDict_inj (by rw [hs] at hs2; simpa using hs2.symm)
+  have e3 : s3 = s := C03S.toDict_inj (by rw [hs] at hs3; simpa using hs3.symm)
+  rw [e2] at hoc
+  rw [e3] at hsum
+  have hm0 : (distinct (ref.map (·.key))).filter (isCls ref l10n .missing) = [] := by
+    rw [List.filter_eq_nil_iff]
+    intro k hkm hc
+    have hc' : classOf ref l10n k = .missing := by simpa [isCls] using hc
+    obtain ⟨a, _, _, hn⟩ := (classOf_missing ref l10n k).1 hc'
+    have : k ∈ ref.map (·.key) := (mem_distinct _ k).1 hkm
+    rw [hk] at this
+    exact (lastEnt_none l10n k).1 hn this
+  have ho0 : (distinct (l10n.map (·.key))).filter (isCls ref l10n .obsolete) = [] := by
+    rw [List.filter_eq_nil_iff]
+    intro k hkm hc
+    have hc' : classOf ref l10n k = .obsolete := by simpa [isCls] using hc
+    obtain ⟨a, _, _, hn⟩ := (classOf_obsolete ref l10n k).1 hc'
+    have : k ∈ l10n.map (·.key) := (mem_distinct _ k).1 hkm
+    rw [← hk] at this
+    exact (lastEnt_none ref k).1 hn this
+  rw [hm0] at hmp
+  rw [ho0] at hop
+  have hmk : r.missingKeys = [] := List.Perm.eq_nil hmp
+  have hok : r.obsoleteKeys = [] := List.Perm.eq_nil hop
+  refine ⟨s, hs, hmk, hok, by rw [hmc, hmk]; rfl, by rw [hoc, hok]; rfl, ?_⟩
+  have : s.missing = 0 := by rw [hmc, hmk]; rfl
+  omega
+
+/-- `[a, b, a]` against a copy with the same key sequence: two strings, not three -/
+example : ∀ r, compareEntities [⟨.str [97], false, 1, 1, 0⟩, ⟨.str [98], false, 1, 2, 0⟩, ⟨.str [97], false, 1, 3, 0⟩]
+      [⟨.str [97], false, 1, 1, 0⟩, ⟨.str [98], false, 1, 2, 0⟩, ⟨.str [97], false, 1, 3, 0⟩] noFilter = .ok r →
+    ∃ s : Stats, r.updates = [s.toDict] ∧ s.missing + s.changed + s.unchanged + s.keys = 2 := by
+  intro r h
+  obtain ⟨s, hs, _, _, _, _, hsum⟩ := duplicates_same_key_sequence _ _ (by decide) r h
+  exact ⟨s, hs, by rw [hsum]; decide⟩
+
+/-! ### (E) `KeyedTuple.__contains__` / `__getitem__` for every kind of argument -/
+
+/-- `x in entities` is true exactly for a key of some entity and for the tuple's own entity objects (ints, foreign objects and
+    unhashable values are not `in` it); `entities[key]` returns the LAST entity with that key, and a key that is not there is a
+    `TypeError` (it falls through to `tuple.__getitem__`). -/
+theorem keyed_probe_spec (es : List Ent) :
+    (∀ k, Sess.keyedContainsProbe es (.key k) = true ↔ k ∈ es.map (·.key)) ∧
+    (∀ i, Sess.keyedContainsProbe es (.item i) = true ↔ i < es.length) ∧
+    (∀ i, Sess.keyedContainsProbe es (.index i) = false) ∧ Sess.keyedContainsProbe es .unhashable = false ∧
+    (∀ k, k ∈ es.map (·.key) → ∃ i e, Sess.keyedGetProbe es (.key k) = .item i ∧ es[i]? = some e ∧ lastEnt es k = some e) ∧
+    (∀ k, k ∉ es.map (·.key) → Sess.keyedGetProbe es (.key k) = .typeError) := by
+  refine ⟨?_, ?_, fun _ => rfl, rfl, ?_, ?_⟩
+  · intro k
+    simp [Sess.keyedContainsProbe, AR.keyedContains_eq]
+  · intro i; simp [Sess.keyedContainsProbe]
+  · intro k hk
+    have hl := lookup_eq es k
+    unfold lookup at hl
+    unfold Sess.keyedGetProbe
+    cases hi : AR.keyedIndex (es.map (·.key)) k with
+    | none =>
+      rw [hi] at hl
+      cases hle : lastEnt es k with
+      | none => exact absurd hk ((lastEnt_none es k).1 hle)
+      | some e => rw [hle] at hl; cases hl
+    | some i =>
+      rw [hi] at hl
+      simp only at hl
+      cases he : es[i]? with
+      | none =>
+        rw [he] at hl
+        cases hle : lastEnt es k <;> rw [hle] at hl <;> cases hl
+      | some e =>
+        rw [he] at hl
+        have hlt : i < es.length := by
+          rcases List.getElem?_eq_some_iff.1 he with ⟨h, _⟩; exact h
+        cases hle : lastEnt es k with
+        | none => rw [hle] at hl; cases hl
+        | some e' =>
+          rw [hle] at hl
+          simp only [Except.ok.injEq] at hl
+          subst hl
+          exact ⟨i, e, by simp [hi, hlt], he, rfl⟩
+  · intro k hk
+    have : (es.map (·.key)).contains k = false := by simpa using hk
+    simp only [Sess.keyedGetProbe, AR.keyedIndex_eq, this]
+    rfl
 
 end C03
